@@ -11,6 +11,8 @@ if [ "$N" -ge 3 ]; then SRC=/tmp/seed2_$P.out/$((N-2)); W=/tmp/seed2_$P; fi
 if [ "$N" -ge 5 ]; then SRC=/tmp/seed3_$P.out/$((N-4)); W=/tmp/seed3_$P; fi
 # round 4: seeds 7 and 8 from /tmp/seed4_<P>.out/{1,2}
 if [ "$N" -ge 7 ]; then SRC=/tmp/seed4_$P.out/$((N-6)); W=/tmp/seed4_$P; fi
+# round 5: seeds 9 and 10 from /tmp/seed5_<P>.out/{1,2}
+if [ "$N" -ge 9 ]; then SRC=/tmp/seed5_$P.out/$((N-8)); W=/tmp/seed5_$P; fi
 [ -d $D ] || { mkdir -p $D; cp $SRC/patch.diff $SRC/demo_test.go $D/; cp $SRC/notes.txt $D/ 2>/dev/null; }
 PKG=$(head -3 $D/demo_test.go | grep -oE '"[^"]+"' | head -1 | tr -d '"'); PKG=${PKG:-.}
 [ -n "${PKGDIR:-}" ] && PKG=$PKGDIR
